@@ -40,6 +40,7 @@ def cmd_check(args):
     pid = args.property
     tier = args.tier or os.environ.get("VERIF_TIER") or "quick"
     seed = int(os.environ.get("VERIF_SEED", "0") or 0)
+    os.environ["PYVC_TIER"] = tier
     from pyvc import run, solve
     run.setup_paths()
     registry = run.load_contracts()
@@ -91,8 +92,12 @@ def cmd_check(args):
         exits = [ob for ob in u["obligations"] if ob["kind"] == "canary" and ob["name"].split("/canary.")[1].startswith("exit")]
         if u.get("unsupported") or u.get("crash"):
             continue
-        reach = [ob for ob in exits if verdicts[ob["name"]]["verdict"] == "refuted"]
-        canary_stats["reachable"] += len(reach)
+        # a canary must NOT be proved; 'refuted' shows the exit reachable, 'unknown' (quantified hypotheses) only that no
+        # contradiction was found within the budget - counted separately
+        reach = [ob for ob in exits if verdicts[ob["name"]]["verdict"] in ("refuted", "unknown")]
+        canary_stats["reachable"] += len([ob for ob in exits if verdicts[ob["name"]]["verdict"] == "refuted"])
+        canary_stats["not_contradictory_within_budget"] = canary_stats.get("not_contradictory_within_budget", 0) + \
+            len([ob for ob in exits if verdicts[ob["name"]]["verdict"] == "unknown"])
         canary_stats["infeasible_paths"] += len([ob for ob in exits if verdicts[ob["name"]]["verdict"] == "proved"])
         if exits and not reach and not getattr(registry[u["key"]], "may_be_unreachable", False):
             engine_errors.append(f"canary: no reachable exit in {u['key']}@{u['label']} "
@@ -104,7 +109,7 @@ def cmd_check(args):
                 lname = ob["name"].split("/canary.")[1].split("#")[0].split("@")[0]
                 loops.setdefault(lname, []).append(verdicts[ob["name"]]["verdict"])
         for lname, vs in loops.items():
-            if "refuted" not in vs:
+            if "refuted" not in vs and "unknown" not in vs:
                 engine_errors.append(f"canary: loop body {lname} unreachable in {u['key']}@{u['label']} verdicts={vs}")
 
     # ---- expected obligation set
@@ -113,7 +118,7 @@ def cmd_check(args):
         head, _, cfgl = n.partition("@")
         return head.split("#")[0] + ("@" + cfgl if cfgl else "")
     # only clause-named obligations are pinned (bounds/assert names carry source text and may change harmlessly)
-    names_now = sorted({base_name(n) for n, k in kinds.items() if k in ("post", "pre", "inv.init", "inv.preserve")})
+    names_now = sorted({base_name(n) for n, k in kinds.items() if k in ("post", "pre", "inv.init", "inv.preserve", "lemma")})
     if args.update_expected:
         expected_all[pid] = names_now
         with open(os.path.join(HERE, "expected_obligations.json"), "w") as f:
@@ -157,7 +162,8 @@ def cmd_check(args):
         if n_refuted < MAX_REFUTE:
             n_refuted += 1
             try:
-                info.update(rp.refute(pid, u["key"], u["label"], ob["name"], run.REPO_SRC, replay_dir, seed=seed))
+                info.update(rp.refute(pid, u["key"], u["label"], ob["name"], run.REPO_SRC, replay_dir, seed=seed,
+                                          first_verdict=v["verdict"]))
             except Exception:
                 import traceback
                 info["note"] = "refutation machinery failed: " + traceback.format_exc(limit=4)
@@ -261,6 +267,8 @@ def cmd_check(args):
         "unproved_definedness": soft_unproved,
         "not_decided": info.get("not_decided", []),
         "samples": samples,
+        "slowest": [{"obligation": n, "time_s": round(v["time_s"], 2), "verdict": v["verdict"], "backend": v["backend"]}
+                    for n, v in sorted(verdicts.items(), key=lambda kv: -kv[1]["time_s"])[:12]],
         "sigma_atoms": sorted({s for u in units for s in u.get("sums", [])})[:50],
         "known_findings_reported": known_lines,
         "undecided": undecided,
